@@ -55,4 +55,27 @@ PROPS = {
         statement="for every input, read-fault position and failing-write index: the result is ok iff no fault was reached and no line is over-long; bytes written before a failing write are a whole-line prefix of the fault-free output; a read fault at a line boundary yields a prefix and an error",
         partial="C08_read_prefix is stated for cuts at line boundaries; a cut inside a line hands the partial tail to the parser, which rejects every proper prefix of a JSON object since the fix of the truncated-object defect (corresponded, sampled at every kind of offset) - the general statement for mid-line cuts is not yet a theorem. Real devices (/dev/full, closed pipe) and gzip damage are runtime: whole-program runs",
     ),
+    "C05": dict(
+        module="Anonymongo.Props.C05",
+        theorems=["Anonymongo.C05_valid", "Anonymongo.C05_class", "Anonymongo.C05_decision_value_free"],
+        corr=["misc", "sweep", "line"],
+        statement="the regenerated constants are a valid ISO instant / 24 hex digits / canonical base64 / e-mail shaped / 0 / false (kernel decide over Generated.tables); for every key path, value, mode and flag set in placeholder mode redactScalarValue returns the value unchanged for path reasons only, or exactly the placeholder of the value's class (date/oid/base64/subType/e-mail/string/number/bool/null)",
+        partial="that every zone slot of the walkers reaches redactScalarValue with the right parent / grand-parent keys is the leaf-by-leaf oracle and the table sweep (this is where the slice-aliasing defect lived); survival of an arbitrary --replacement through serialisation is covered by the print/parse correspondence, not yet by a theorem",
+    ),
+    "C09": dict(
+        module="Anonymongo.Props.C09",
+        theorems=["Anonymongo.C09_roundtrip", "Anonymongo.C09_tamper", "Anonymongo.C10_inj"],
+        corr=["line"],
+        statement="for ANY deterministic AEAD and base64 codec satisfying dec(enc p) = p and 'accepted => genuine': the leaf emitted for s decrypts through the decrypt command to exactly utf8(s); anything the decrypt command accepts is the genuine ciphertext of what it prints",
+        partial="the AEAD laws are assumptions about Tink AES-SIV (listed in the trusted base), not proved; 'a different key / an altered ciphertext fails' is a 2^-128 statement, sampled end to end through the real CLI (bit flips, truncations, extensions, wrong key)",
+        trusted=["tink-go AES-SIV: dec(k, enc(k, p)) = p and decryption accepts only genuine ciphertexts; encoding/base64 round trip; os.ReadFile of the key file"],
+    ),
+    "C10": dict(
+        module="Anonymongo.Props.C09",
+        theorems=["Anonymongo.C10_det", "Anonymongo.C10_inj", "Anonymongo.C10_closed", "Anonymongo.C10_bad_key", "Anonymongo.C10_equiv_leaf"],
+        corr=["line", "misc", "sweep"],
+        statement="the ciphertext leaf is a function of (key, plaintext); injective; with an encryption function that fails the leaf is the placeholder (never the plaintext); at every leaf encrypt mode and placeholder mode take the same decision and differ only where placeholder mode replaces a string",
+        partial="C10_equiv_leaf is the leaf-level statement; its lift to whole lines (same lines, same shape) rests on C03 for both modes plus the leaf-wise oracle over grammar lines; determinism across separate processes is a property of Tink and key loading: sampled",
+        trusted=["tink-go AES-SIV determinism across processes"],
+    ),
 }
